@@ -247,6 +247,9 @@ func runC14(c *an.Ctx) {
 	// the client that was committed), or an Update and a Pull for the same name talk to different devices
 	r124as(c, "R14.13")
 	c.Min("R14.13", 10)
+	// Get and Pull project with the same filter: ReadRequest.FilterClone (Get) has no shortcut of its own
+	readRequestFilterClone(c, "R14.14")
+	c.Min("R14.14", 1)
 	c.Min("R14.9", 1)
 	c.Min("R14.10", 6)
 	c.Min("R14.1", 30)
